@@ -494,6 +494,10 @@ func genScript(t *rapid.T) Script {
 		if rapid.IntRange(0, 5).Draw(t, "big") == 0 {
 			prof = uni.Profile{FillProb: 60, MaxBytes: 3000}
 		}
+		if rapid.IntRange(0, 4).Draw(t, "empty") == 0 {
+			s.Msgs = append(s.Msgs, nil) // an all-default message: 0 bytes on the wire (grpc-go sends it uncompressed even on a gzip stream)
+			continue
+		}
 		s.Msgs = append(s.Msgs, wire(uni.GenMessage(t, uni.Base().MsgDesc("un.All"), prof)))
 	}
 	nmd := rapid.IntRange(0, 3).Draw(t, "nmd")
